@@ -111,7 +111,7 @@ func (e *Env) useAt(fr *Frame, where string, st *State) {
 			top = top.parent
 		}
 		vars := e.invVars(fr)
-		if where == "return" {
+		if strings.HasPrefix(where, "return") {
 			for k, v := range top.specVars {
 				vars[k] = v
 			}
@@ -381,17 +381,22 @@ func (e *Env) verifyFunc(it *Item) {
 		ri.ResultTerms = append(ri.ResultTerms, e.flatten(rv))
 	}
 	e.replay = ri
-	// postconditions
-	pv := map[string]Value{}
-	for k, v := range vars {
-		pv[k] = v
-	}
-	bindResults(pv, fn, results)
-	fr.specVars = pv
-	e.cur = fr
-	e.useAt(fr, "return", out)
-	post := &SpecCtx{e: e, st: out, old: entry, vars: pv, pkg: pkg}
+	// postconditions: checked at every return site separately (no merged heap), unless the
+	// contract asks for a case split
 	hasCases := len(it.Cases) > 0
+	type retSite struct {
+		st   *State
+		vals []Value
+		tag  string
+	}
+	var sites []retSite
+	if len(fr.rets) > 1 && !hasCases && it.Opts["merged-post"] == "" {
+		for k, r := range fr.rets {
+			sites = append(sites, retSite{r.st, r.vals, fmt.Sprintf("@ret%d", k)})
+		}
+	} else {
+		sites = []retSite{{out, results, ""}}
+	}
 	var caseTerms []string
 	if hasCases {
 		cctx := &SpecCtx{e: e, st: entry, vars: vars, pkg: pkg}
@@ -400,24 +405,39 @@ func (e *Env) verifyFunc(it *Item) {
 		}
 		e.oblige("cases-exhaustive", "", tTrue, mkOr(caseTerms...))
 	}
-	for i, c := range it.Clauses {
-		if c.Kind != "ensures" {
-			continue
+	for _, site := range sites {
+		pv := map[string]Value{}
+		for k, v := range vars {
+			pv[k] = v
 		}
-		label := c.Label
-		if label == "" {
-			label = fmt.Sprint(i)
+		bindResults(pv, fn, site.vals)
+		fr.specVars = pv
+		e.cur = fr
+		e.useAt(fr, "return", site.st)
+		if site.tag != "" {
+			e.useAt(fr, "return "+strings.TrimPrefix(site.tag, "@ret"), site.st)
 		}
-		goal := post.boolTerm(c.Expr)
-		if hasCases {
-			e.obligeCases("post", label, out.pc, caseTerms, goal)
-		} else {
-			e.oblige("post", label, out.pc, goal)
+		post := &SpecCtx{e: e, st: site.st, old: entry, vars: pv, pkg: pkg}
+		for i, c := range it.Clauses {
+			if c.Kind != "ensures" {
+				continue
+			}
+			label := c.Label
+			if label == "" {
+				label = fmt.Sprint(i)
+			}
+			goal := post.boolTerm(c.Expr)
+			if hasCases {
+				e.obligeCases("post", label, site.st.pc, caseTerms, goal)
+			} else {
+				e.oblige("post", label+site.tag, site.st.pc, goal)
+			}
 		}
-	}
-	if it.Opts["noframe"] == "" {
-		for n, g := range e.frameGoals(out) {
-			e.oblige("frame", sanitize(n), out.pc, g)
+		if it.Opts["noframe"] == "" {
+			fg := e.frameGoals(site.st)
+			for _, n := range sortedKeys2(fg) {
+				e.oblige("frame", sanitize(n)+site.tag, site.st.pc, fg[n])
+			}
 		}
 	}
 }
@@ -552,7 +572,7 @@ func (e *Env) obligeCases(kind, label, pc string, caseTerms []string, goal strin
 			<-solverSlots
 			if r.Verdict == Unknown {
 				solverSlots <- struct{}{}
-				r2 := raceSolvers(script, e.timeoutMs*3, []int{1, 2})
+				r2 := raceSolvers(script, e.timeoutMs*3, []int{1, 2, 3})
 				<-solverSlots
 				r2.Time += r.Time
 				r = r2
